@@ -14,7 +14,8 @@ Contract clauses evaluated (on the REAL tsdate.inside_outside / tsdate.maximizat
                                          a proved tie are then not compared (the statement allows that)
   maximization-tie-exclusions            bookkeeping (nontrivial=False): one passing record per excused tie, so the
                                          number of excused comparisons is visible in the evidence
-Each clause is evaluated in both probability spaces ("logarithmic" = default, "linear").
+Each clause is evaluated in both probability spaces ("logarithmic" = default, "linear"); multi-tree inputs are
+additionally run through maximization with a coarse 6-timepoint prior grid built by the real build_prior_grid.
 
 Tie oracle (written from the statement of C11/C13, shares no code with tsdate): for a node u whose parents all got
 the same timepoints in both runs, objective(i) = log inside[u][i] + sum over edges e=(p,u) of
@@ -24,15 +25,19 @@ differ by <= 1e-9 (natural-log units, i.e. 1e-9 relative in probability).
 
 Input space
   quick   : every rooted leaf-labelled tree shape with 3 and 4 leaves incl. polytomies (4 + 26 shapes, seeded random
-            mutation counts 0..3 per node)  x ALL permutations of the non-sample ids (<= 3! = 6) x 3 re-timings,
-            plus 30 small msprime simulations (3..7 samples, 1..~15 trees, nodes with several parents), one polytomy
+            mutation counts 0..3 per node)  x ALL permutations of the non-sample ids (<= 3! = 6) x 4 re-timings,
+            plus 30 small msprime simulations (3..7 samples, 1..~15 trees, nodes with several parents) and 5
+            hand-built two-tree inputs in which one node has two parents that the data rank either way round
+            (8 mutation patterns; all 3! renumberings), and 5 low-information ones (10..16 samples, <= 64 nodes, mutations simulated at a tenth of the dating rate), one polytomy
             input, each x 4 renumberings (reverse = oldest root gets the smallest non-sample id, rotate, 2 random)
-            x 3 re-timings x 2 combined.
+            x 4 re-timings x 2 combined.
   thorough: additionally all 236 shapes with 5 leaves (x all <= 4! permutations) and 150 simulations (up to 8
             samples) with 6 random renumberings each.
   Re-timings (samples stay at 0, tree sequence re-sorted so it stays valid): (a) a strictly increasing non-linear
   map of the old times, (b) random times that respect only parent>child (relative order of unrelated nodes
-  changes), (c) integer heights 1 + max(child height) (many exact ties between unrelated nodes).
+  changes), (c) integer heights 1 + max(child height) (many exact ties between unrelated nodes), (d) an
+  order-reversing map (increment above the oldest child shrinks with the original age, so unrelated nodes -- the
+  several parents of one child in particular -- tend to appear in the reverse of their original order).
   exhaustive = False (shapes/permutations are exhaustive for <= 4 (5) leaves; mutation patterns, simulations and
   re-timings are sampled).
 
@@ -109,7 +114,7 @@ def children_lists(ts):
 
 
 def retimings(ts, rng):
-    """Three valid re-timings of the non-sample nodes."""
+    """Four valid re-timings of the non-sample nodes."""
     t = ts.nodes_time
     out = []
     # (a) strictly increasing non-linear map
@@ -128,6 +133,14 @@ def retimings(ts, rng):
         if kids[u]:
             h[u] = max(h[c] for c in kids[u]) + 1.0
     out.append(("heights", h))
+    # (d) order-reversing: increments shrink with the ORIGINAL age, so that among unrelated nodes (e.g. the several
+    # parents of one child) the input order tends to be the reverse of the original -- and of what the data say
+    rev = np.zeros(ts.num_nodes)
+    tmax = float(t.max()) if t.size else 1.0
+    for u in order:
+        if kids[u]:
+            rev[u] = max(rev[c] for c in kids[u]) + 1.0 / (1.0 + 50.0 * t[u] / max(tmax, 1e-300))
+    out.append(("order-reversing", rev))
     return out
 
 
@@ -143,8 +156,15 @@ def run_method(tsdate, ts, method, space):
             vr = np.array([out.node(u).metadata.get("vr", np.nan) if not out.node(u).is_sample() else 0.0
                            for u in range(out.num_nodes)])
             return {"time": out.nodes_time, "mn": mn, "vr": vr, "fit": fit}
-        out, fit = tsdate.maximization(ts, mutation_rate=MU, population_size=NE, eps=EPS,
-                                       probability_space=space, return_fit=True)
+        if method == "maximization-grid6":
+            # a coarse grid (6 quantile timepoints, built per input by the real build_prior_grid): a child's preferred
+            # timepoint then often coincides with a parent's, where the order of a node's parents starts to matter
+            pr = tsdate.build_prior_grid(ts, population_size=NE, timepoints=6)
+            out, fit = tsdate.maximization(ts, mutation_rate=MU, priors=pr, eps=EPS, probability_space=space,
+                                           return_fit=True)
+        else:
+            out, fit = tsdate.maximization(ts, mutation_rate=MU, population_size=NE, eps=EPS,
+                                           probability_space=space, return_fit=True)
         return {"time": out.nodes_time, "pm": np.array(fit.posterior_mean), "fit": fit}
 
 
@@ -267,6 +287,16 @@ def small_sims(seed, k, nmax):
         i += 1
         if ts.num_nodes <= 40 and ts.num_mutations > 0:
             out.append((f"sim{i - 1}-n{n}-t{ts.num_trees}", strip_mutation_times(ts)))
+    # low-information inputs: more samples, several trees, few mutations (simulated at a tenth of the dating rate), so
+    # that the maximised timepoints are not simply the rank order of the true ages and a child's parents can be
+    # ranked by the data against their input-time order
+    j, want = 0, max(2, k // 6)
+    while sum(1 for nm, _ in out if nm.startswith("lowinfo")) < want and j < 40 * want:
+        n = 10 + (j % 7)
+        ts = inputs.sim(seed * 1000 + 500 + j, n=n, L=1e3, rec=2e-5, mu=MU / 10, ne=NE)
+        j += 1
+        if ts.num_trees > 1 and ts.num_nodes <= 64 and ts.num_mutations > 0:
+            out.append((f"lowinfo{j - 1}-n{n}-t{ts.num_trees}", strip_mutation_times(ts)))
     return out
 
 
@@ -297,6 +327,56 @@ def perms_for(ts, rng, exhaustive, n_random):
     return out
 
 
+def two_parent_args(rng, count):
+    """Hand-built two-tree sequences in which node 3 (parent of samples 0, 1) has TWO parents: node 4 on the left
+    half and node 5 on the right half (each also the parent of sample 2 there).  The mutation pattern is chosen so
+    that the data rank the two parents either way round, independently of their input times (t4 < t5 in the base
+    input; the order-reversing re-timing swaps them): an implementation that trusts the input order of a child's
+    parents is exposed here."""
+    out = []
+    patterns = [(6, 0, 3), (0, 6, 3), (8, 1, 0), (1, 8, 0), (4, 0, 6), (0, 4, 6), (12, 0, 1), (2, 2, 2)]
+    for k in range(count):
+        on4, on5, below3 = patterns[k % len(patterns)]
+        if k >= len(patterns):
+            on4, on5, below3 = (int(rng.integers(0, 10)) for _ in range(3))
+        L = 1e3
+        tables = tskit.TableCollection(sequence_length=L)
+        for _ in range(3):
+            tables.nodes.add_row(flags=tskit.NODE_IS_SAMPLE, time=0)
+        tables.nodes.add_row(time=1.0)   # 3
+        tables.nodes.add_row(time=2.0)   # 4
+        tables.nodes.add_row(time=3.0)   # 5
+        for c in (0, 1):
+            tables.edges.add_row(0, L, 3, c)
+        for c in (2, 3):
+            tables.edges.add_row(0, L / 2, 4, c)
+            tables.edges.add_row(L / 2, L, 5, c)
+        pos = []
+
+        def put(lo, hi, node, m):
+            for _ in range(m):
+                x = float(rng.uniform(lo, hi))
+                while x in pos:
+                    x = float(rng.uniform(lo, hi))
+                pos.append(x)
+                muts.append((x, node))
+        muts = []
+        put(0, L / 2, 3, on4 - on4 // 2)      # above node 3, left half: on the edge 3 -> 4
+        put(0, L / 2, 2, on4 // 2)            # above sample 2, left half: on the edge 2 -> 4
+        put(L / 2, L, 3, on5 - on5 // 2)
+        put(L / 2, L, 2, on5 // 2)
+        put(0, L, 0, below3 - below3 // 2)
+        put(0, L, 1, below3 // 2)
+        for x, node in sorted(muts):
+            sid = tables.sites.add_row(position=x, ancestral_state="0")
+            tables.mutations.add_row(site=sid, node=node, derived_state="1")
+        tables.sort()
+        tables.build_index()
+        tables.compute_mutation_parents()
+        out.append((f"twoparent{k}-m{on4}.{on5}.{below3}", tables.tree_sequence()))
+    return out
+
+
 # ------------------------------------------------------------------ main
 def run(req, rep):
     import tsdate
@@ -310,12 +390,14 @@ def run(req, rep):
             cases.append((name, ts, desc, True))
     for name, ts in small_sims(seed, 150 if thorough else 30, 8 if thorough else 7):
         cases.append((name, ts, None, False))
+    for name, ts in two_parent_args(rng, 24 if thorough else 8):
+        cases.append((name, ts, None, True))
     # with_polytomy leaves the collapsed node unreferenced; simplify() drops it and keeps the polytomy
     cases.append(("polytomy", strip_mutation_times(inputs.with_polytomy(seed).simplify()), None, False))
 
     rep.space = ("all rooted leaf-labelled tree shapes (polytomies incl.) with seeded mutation counts x all "
-                 "permutations of non-sample ids x 3 re-timings; small msprime simulations (multi-tree, multi-parent "
-                 "nodes) and a polytomy input x reverse/rotate/random renumberings x 3 re-timings x combined; "
+                 "permutations of non-sample ids x 4 re-timings; small msprime simulations (multi-tree, multi-parent "
+                 "nodes) and a polytomy input x reverse/rotate/random renumberings x 4 re-timings x combined; "
                  "methods inside_outside and maximization in logarithmic and linear space")
     rep.bound = (f"tier={tier}: leaves<= {5 if thorough else 4} ({sum(1 for c in cases if c[3])} shapes), "
                  f"{sum(1 for c in cases if not c[3])} simulated inputs with <= 40 nodes and <= {8 if thorough else 7} samples, "
@@ -342,8 +424,11 @@ def run(req, rep):
         for (tl, new_t), (pl, perm) in combos:
             variants.append(("renumber-and-retime", f"{tl}+{pl}", apply_perm(retime(ts, new_t), perm), perm))
         in_desc = desc if desc is not None else bounded_api.ts_to_json(ts)
-        for method, space in (("inside_outside", "logarithmic"), ("inside_outside", "linear"),
-                              ("maximization", "logarithmic"), ("maximization", "linear")):
+        methods = [("inside_outside", "logarithmic"), ("inside_outside", "linear"),
+                   ("maximization", "logarithmic"), ("maximization", "linear")]
+        if ts.num_trees > 1:
+            methods.append(("maximization-grid6", "logarithmic"))
+        for method, space in methods:
             base = try_method(tsdate, ts, method, space)
             for kind, label, ts_v, perm in variants:
                 res = try_method(tsdate, ts_v, method, space)
